@@ -78,13 +78,12 @@ pub fn process_cell<T: CoordsFloat>(
         .zip(vertices.iter())
         .enumerate()
         .find_map(|(id, (d0, v0))| {
-            let mut tmp = vertices
-                .windows(2)
-                .enumerate()
+            // every side of the polygon, the closing one included
+            let mut tmp = (0..n)
                 // remove segments directly attached to v0
-                .filter(|(i_seg, _)| !((n + i_seg) % n == id || (n + i_seg - 1) % n == id))
-                .map(|(_, val)| {
-                    let [v1, v2] = val else { unreachable!() };
+                .filter(|i_seg| !(*i_seg == id || (i_seg + 1) % n == id))
+                .map(|i_seg| {
+                    let (v1, v2) = (&vertices[i_seg], &vertices[(i_seg + 1) % n]);
                     Vertex2::cross_product_from_vertices(v0, v1, v2)
                 });
             let signum = tmp.next().map(T::signum).unwrap();
